@@ -1697,13 +1697,42 @@ pub fn c09_key(ast: Option<&Ast>) -> Option<&'static str> {
     // textual order): the exhaustiveness fold skips over a branch whose text is bounded instead
     // of stopping at it.
     let mut first_open: Option<usize> = None;
+    // (start, end) of the first tree wildcard or open-ended repetition. The branch must be
+    // written *after* it — not inside it: a group nested in the open repetition's own body is
+    // not what the listed finding is about (round 9, C09-J hid behind the wider reading).
+    let mut first_open: Option<(usize, usize)> = None;
     ast.seq.walk(&mut |t, _| {
         if matches!(t.node, Node::Tree { .. } | Node::Rep { hi: None, .. }) {
-            first_open = Some(first_open.map_or(t.span.0, |f| f.min(t.span.0)));
+            let this = (t.span.0, t.span.0 + t.span.1);
+            first_open = Some(match first_open {
+                Some(f) if f.0 <= this.0 => f,
+                _ => this,
+            });
         }
     });
-    if let Some(ft) = first_open {
-        if ast.has_feature(&|t, _| matches!(t.node, Node::Alt(_) | Node::Rep { .. }) && t.span.0 > ft) {
+    // The one shape of a branch nested in the open repetition that the implementation's fold
+    // guards explicitly (and judges correctly today: `<{*/*/}>*` is Never): a single alternative
+    // made of wildcards and separators only that spans two or more components. A wrong verdict
+    // there is not the listed finding (round 9, C09-J).
+    fn guarded_wildcard_body(t: &Tok) -> bool {
+        let body: &Seq = match &t.node {
+            Node::Alt(bs) if bs.len() == 1 => &bs[0],
+            Node::Rep { body, .. } => body,
+            _ => return false,
+        };
+        let mut seps = 0;
+        let mut only = true;
+        body.walk(&mut |x, _| match x.node {
+            Node::Sep => seps += 1,
+            Node::One | Node::Zom { .. } => {},
+            _ => only = false,
+        });
+        only && seps >= 2
+    }
+    if let Some((start, end)) = first_open {
+        if ast.has_feature(&|t, _| {
+            matches!(t.node, Node::Alt(_) | Node::Rep { .. }) && t.span.0 > start && (t.span.0 >= end || !guarded_wildcard_body(t))
+        }) {
             return Some("bounded-branch-skipped-by-exhaustiveness-fold");
         }
     }
